@@ -191,7 +191,7 @@ func And(as ...*Term) *Term {
 		if t == TFalse {
 			return false
 		}
-		if t.Op == "and" {
+		if t.Op == "and" && len(t.Args) <= 6 {
 			for _, x := range t.Args {
 				if !add(x) {
 					return false
@@ -234,7 +234,7 @@ func Or(as ...*Term) *Term {
 		if t == TTrue {
 			return false
 		}
-		if t.Op == "or" {
+		if t.Op == "or" && len(t.Args) <= 6 {
 			for _, x := range t.Args {
 				if !add(x) {
 					return false
@@ -650,7 +650,50 @@ func (p *printer) inline(t *Term) string {
 			fmt.Fprintf(&b, "(%s %s)", smtSym(v.Name), v.S)
 		}
 		b.WriteString(") ")
-		b.WriteString(p.inline(t.Args[n]))
+		// shared open sub-terms of the body are bound by nested lets (closed ones are define-fun'd globally)
+		body := t.Args[n]
+		refs := map[*Term]int{}
+		var order []*Term
+		var walk func(x *Term)
+		walk = func(x *Term) {
+			if !x.open || len(x.Args) == 0 {
+				return
+			}
+			if _, named := p.names[x]; named {
+				return
+			}
+			refs[x]++
+			if refs[x] > 1 {
+				return
+			}
+			if x.Op != "forall" && x.Op != "exists" {
+				for _, a := range x.Args {
+					walk(a)
+				}
+			}
+			order = append(order, x)
+		}
+		walk(body)
+		var added []*Term
+		closers := 0
+		if !p.limited {
+			for _, x := range order {
+				if refs[x] < 2 || x == body {
+					continue
+				}
+				txt := p.inline(x)
+				nm := fmt.Sprintf("l!%d", x.id)
+				fmt.Fprintf(&b, "(let ((%s %s)) ", nm, txt)
+				p.names[x] = nm
+				added = append(added, x)
+				closers++
+			}
+		}
+		b.WriteString(p.inline(body))
+		b.WriteString(strings.Repeat(")", closers))
+		for _, x := range added {
+			delete(p.names, x)
+		}
 		b.WriteByte(')')
 		return b.String()
 	}
